@@ -1498,3 +1498,7 @@ for _i in [1, 2, 3, 4, 5, 6, 7, 8, 10, 11, 12, 13, 14, 15, 16, 17, 18, 19, 20]:
                          what="if-tests and returned expressions assigned to locals first"))
     VARIANTS.append(dict(id="ternary-to-if-c%02d" % _i, prop="C%02d" % _i, expect="silent", rule=None, edits=[("@ternary_to_if",)],
                          what="conditional expressions assigned to a name written as if / else statements"))
+
+# ------------------------------------------------------------------------------- C07 chain enumeration with one merged link loop (refactor round 2)
+V("rf-c07-chain-merged-loop", "C07", "silent", UT, _C07_CH, "        for k in range(p - 1):\n            if k < i:\n                A[k + 1, k] = 1\n            else:\n                A[k, k + 1] = 1\n", what="the two inner loops merged into one loop over the links")
+V("rf-c07-chain-merged-loop-le", "C07", "fire", UT, _C07_CH, "        for k in range(p - 1):\n            if k <= i:\n                A[k + 1, k] = 1\n            else:\n                A[k, k + 1] = 1\n", rule="CHAIN.partition", what="merged loop, the link at the root points towards it", accept_inconclusive=True)
